@@ -27,15 +27,20 @@ KEM_INSTR = [
 # schedule manager and the kube events manager are instrumented; informers, hook processes,
 # HTTP server, metrics loops and cron's goroutine are behind seams
 OP_EXTRA = {"pkg/executor": ["zz_verif_seam.go"], "pkg/schedule_manager": ["zz_verif_seam.go"], "pkg/kube_events_manager": ["zz_verif_hub.go"]}
-OP_INSTR = {"files": KEM_INSTR + [
+# dir-level rule: a lock that appears in any other file of these packages becomes a scheduling
+# point too (a real mutex contended between scheduler threads would hang the run)
+OP_DIRS = [{"dir": d, "sync": True} for d in ("pkg/hook", "pkg/hook/controller", "pkg/hook/binding_context", "pkg/shell-operator",
+                                              "pkg/task/queue", "pkg/kube_events_manager", "pkg/schedule_manager", "pkg/executor",
+                                              "pkg/webhook/admission", "pkg/webhook/conversion")]
+OP_INSTR = {"dirs": OP_DIRS, "files": KEM_INSTR + [
     {"path": "pkg/executor/executor.go", "calls": {"e.cmd.Run": "@zzCmdRun", "e.cmd.Output": "@zzCmdOutput"}},
     {"path": "pkg/shell-operator/operator.go", "time": True, "conc": True,
      "calls": {"tqs.NewNamedQueue": "@zzNewNamedQueue", "op.TaskQueues.NewNamedQueue": "@zzNewNamedQueue",
                "op.APIServer.Start": "@zzNoopAPIStart", "op.runMetrics": "@zzNoopRunMetrics", "op.ScheduleManager.Start": "@zzNoopSchedStart",
                "op.AdmissionWebhookManager.Start": "@zzNoopAdmStart", "op.ConversionWebhookManager.Start": "@zzNoopConvStart"}},
     {"path": "pkg/shell-operator/manager_events_handler.go", "conc": True},
-    {"path": "pkg/task/queue/task_queue.go", "sync": True, "time": True, "conc": True, "touch": ["started"]},
-    {"path": "pkg/task/queue/queue_set.go", "sync": True, "time": True, "conc": True},
+    {"path": "pkg/task/queue/task_queue.go", "sync": True, "time": True, "conc": True, "touch": ["started", "q.Status"]},
+    {"path": "pkg/task/queue/queue_set.go", "sync": True, "time": True, "conc": True, "touch": ["q.Status"]},
     {"path": "pkg/hook/controller/kubernetes_bindings_controller.go", "sync": True, "conc": True},
     {"path": "pkg/hook/controller/schedule_bindings_controller.go", "sync": True},
     {"path": "pkg/schedule_manager/schedule_manager.go", "conc": True},
@@ -54,6 +59,8 @@ CHECKS = {
         "parts": [
             part("c05a", "pkg/task/queue", "TestVerifC05a", ["zz_verif_c05_test.go"], shards={"quick": 4, "thorough": 16}),
             part("c05b", "pkg/task/queue", "TestVerifC05b", ["zz_verif_c05_test.go"], shards={"quick": 8, "thorough": 16}),
+            part("c05c", "pkg/task/queue", "TestVerifC05c", ["zz_verif_c05_test.go", "zz_verif_c05c_test.go"], shards={"quick": 12, "thorough": 16}, gomaxprocs=1,
+                 instrument={"files": [{"path": "pkg/task/queue/task_queue.go", "sync": True, "time": True, "conc": True, "touch": ["started", "q.Status"]}]}),
         ],
     },
     "C07": {
@@ -66,8 +73,8 @@ CHECKS = {
         "parts": [
             part("c07a", "pkg/shell-operator", "TestVerifC07a", ["zz_verif_c07_test.go"], shards={"quick": 8, "thorough": 16}),
             part("c07b", "pkg/shell-operator", "TestVerifC07b", ["zz_verif_c07_test.go"], shards={"quick": 4, "thorough": 8}, gomaxprocs=1,
-                 instrument={"files": [{"path": "pkg/task/queue/task_queue.go", "sync": True, "time": True, "conc": True, "touch": ["started"]},
-                                       {"path": "pkg/task/queue/queue_set.go", "sync": True, "time": True, "conc": True}]}),
+                 instrument={"files": [{"path": "pkg/task/queue/task_queue.go", "sync": True, "time": True, "conc": True, "touch": ["started", "q.Status"]},
+                                       {"path": "pkg/task/queue/queue_set.go", "sync": True, "time": True, "conc": True, "touch": ["q.Status"]}]}),
         ],
     },
     "C15": {
@@ -131,6 +138,8 @@ CHECKS = {
         "parts": [
             part("c01l1", "pkg/kube_events_manager", "TestVerifC01L1", ["zz_verif_c01_test.go"], shards={"quick": 8, "thorough": 16},
                  extra={"pkg/kube_events_manager": ["zz_verif_hub.go"]}, instrument={"files": KEM_INSTR}, gomaxprocs=1),
+            part("kemrace", "pkg/kube_events_manager", "TestVerifRaceKEM", ["zz_verif_race_test.go", "zz_verif_hubconf_test.go", "zz_verif_c01_test.go"], shards={"quick": 6, "thorough": 12},
+                 extra={"pkg/kube_events_manager": ["zz_verif_hub.go"]}, instrument={"files": KEM_INSTR}, race=True, gomaxprocs=4),
             part("c01l2", "pkg/shell-operator", "TestVerifC01L2", ["zz_verif_c01_test.go", "zz_verif_c03_test.go", "zz_verif_fixture_test.go"], shards={"quick": 9, "thorough": 9},
                  extra=OP_EXTRA, instrument=OP_INSTR, gomaxprocs=1),
         ],
@@ -145,6 +154,8 @@ CHECKS = {
         "parts": [
             part("c03", "pkg/shell-operator", "TestVerifC03", ["zz_verif_c03_test.go", "zz_verif_fixture_test.go"], shards={"quick": 12, "thorough": 16},
                  extra=OP_EXTRA, instrument=OP_INSTR, gomaxprocs=1),
+            part("oprace", "pkg/shell-operator", "TestVerifRaceOperator", ["zz_verif_race_test.go", "zz_verif_c03_test.go", "zz_verif_fixture_test.go"], shards={"quick": 4, "thorough": 8},
+                 extra=OP_EXTRA, instrument=OP_INSTR, race=True, gomaxprocs=4),
         ],
     },
     "C17": {
